@@ -146,6 +146,7 @@ def partition(body, lanes, is_len):
     for sl in sorted(set(r[0] for r in reads if r[0])):
         iters = {}
         per_loop = {}
+        bases = {}
         once = []
         bad = None
         for name, off, w, where in reads:
@@ -161,9 +162,14 @@ def partition(body, lanes, is_len):
                 # execute, its elements must not be read by anything else
                 once.append((l, ({x: c for x, c in l[0].items()}, l[1] + w), where))
                 continue
-            if len(its) != 1 or len(l[0]) != 1:
+            if len(its) != 1:
                 bad = 'offset at %s is not i·S + c over one loop: %s' % (where, show(l))
                 break
+            base = ({x: c for x, c in l[0].items() if x != its[0]}, 0)     # loop-invariant part of the offset
+            if its[0][1] in bases and _key(bases[its[0][1]]) != _key(base):
+                bad = 'loop at bb%d: its reads use different base offsets (%s, %s)' % (its[0][1], show(bases[its[0][1]]), show(base))
+                break
+            bases[its[0][1]] = base
             per_loop.setdefault(its[0][1], []).append((l[1], w, l[0][its[0]], where))
         if bad:
             res[sl] = (False, bad)
@@ -200,7 +206,14 @@ def partition(body, lanes, is_len):
                 if any(c % step for c in diff.values()) or (lhi[1] - llo[1]) % step:
                     bad = 'loop at bb%d steps by %d over [%s, %s), whose length is not a multiple of the step' % (bb, step, show(llo), show(lhi))
                     break
-            spans.append((scale(llo, S), scale(lhi, S), bb))
+            bs = bases.get(bb, ({}, 0))
+
+            def plus(a_, b_):
+                d = dict(a_[0])
+                for x, c in b_[0].items():
+                    d[x] = d.get(x, 0) + c
+                return ({x: c for x, c in d.items() if c}, a_[1] + b_[1])
+            spans.append((plus(scale(llo, S), bs), plus(scale(lhi, S), bs), bb))
         if bad:
             res[sl] = (False, bad)
             continue
